@@ -219,6 +219,18 @@ func init() {
 			}
 			compareAll("unrelated-section-changes-verdict", "a configuration with only unrelated sections", cfg, nil, text)
 		}
+		// a section that is present but sets none of the lint's options (empty table, inline empty table, only unknown
+		// keys) leaves the lint at its defaults: "setting a lint's option changes that lint's behaviour", naming a lint does not
+		for _, n := range configurable {
+			for _, text := range []string{fmt.Sprintf("[%s]\n", n), fmt.Sprintf("%s = {}\n", n), fmt.Sprintf("[%s]\nNoSuchOption = 1\nanother_unknown = \"x\"\n", n),
+				fmt.Sprintf("[%s]\n[other_section]\nA = 1\n", n)} {
+				cfg, e := lint.NewConfigFromString(text)
+				if e != nil {
+					continue
+				}
+				compareAll("optionless-section-changes-verdict:"+n, "a section for "+n+" that sets none of its options", cfg, nil, text)
+			}
+		}
 		// each real configurable lint: ill-typed / scalar / array sections -> exactly that lint fatal with a configuration error
 		for _, n := range configurable {
 			for _, bad := range []string{fmt.Sprintf("[%s]\nRounds = \"x\"\nSkip = 3\nCrossCert = \"no\"\nSubscriberCRL = 7\n", n), fmt.Sprintf("%s = 5\n", n), fmt.Sprintf("%s = [1, 2]\n", n), fmt.Sprintf("%s = \"str\"\n", n)} {
